@@ -226,6 +226,11 @@ def r4_reader_all_directories(repo=None):
         loops = [n for n in pyfront.walk_no_nested(fn) if isinstance(n, ast.For)
                  and "top_level_dir_meta_list" in ast.unparse(resolved_iter(n))]
         if len(loops) != 1:
+            # positive evidence only: one element of the list is picked by a constant index and the list is not iterated
+            picked = [x for x in pyfront.walk_no_nested(fn) if isinstance(x, ast.Subscript) and "top_level_dir_meta_list" in ast.unparse(x.value)
+                      and isinstance(x.slice, (ast.Constant, ast.UnaryOp))]
+            if loops or not picked:
+                raise AnalysisError("%s: %d loops over top_level_dir_meta_list, expected one" % (q, len(loops)))
             r.violation(m.rel, q, "%d loops over top_level_dir_meta_list" % len(loops), "the query does not iterate over the "
                         "channel's top-level directories", line=fn.lineno)
             continue
